@@ -259,6 +259,8 @@ func checkC07(c AxisCase) (bool, *Violation) {
 		pairs[a.Code] = ctlPair{[2]byte{byte((base + off) % 16), byte(*a.CC)}, [2]byte{byte((base + offNeg) % 16), byte(*a.CCNeg)}}
 	}
 	lastSide := map[uint16]int{}
+	lastPre := map[uint16]*big.Rat{}
+	stale := map[uint16]bool{}
 	crossings := map[uint16]int{}
 	nontrivial := false
 	for i := range w.Steps {
@@ -318,6 +320,28 @@ func checkC07(c AxisCase) (bool, *Violation) {
 		for code, q := range pairs {
 			if rx.CC[q.pos] > 0 && rx.CC[q.neg] > 0 {
 				return true, violation("C07", "both-sides-nonzero", "", "%s: after this event the receiver has both controllers of axis %d non-zero (%d and %d)", where(), code, rx.CC[q.pos], rx.CC[q.neg])
+			}
+		}
+		// An event that transmits nothing leaves the receiver as it was. That is legitimate when CC-learning
+		// suppressed it (the receiver is then stale until the next transmission) or when it repeats the previous
+		// shaped position; in every other case the receiver must be on the side of the stick after the event.
+		prevPre, seenPre := lastPre[a.Code]
+		repeatsPrev := (seenPre && prevPre.Cmp(sh.PreFlip) == 0) || (!seenPre && sh.PreFlip.Sign() == 0)
+		lastPre[a.Code] = sh.PreFlip
+		if len(ws.Res.Out) > 0 {
+			stale[a.Code] = false
+		} else if learning && !half {
+			stale[a.Code] = true
+		}
+		silentButMoved := len(ws.Res.Out) == 0 && !repeatsPrev && !stale[a.Code] && !(learning && !half) && side != 2
+		if silentButMoved {
+			switch {
+			case side > 0 && rx.CC[p.neg] != 0:
+				return true, violation("C07", "stale-side", "", "%s: the stick moved to the positive side, nothing was transmitted and the negative controller is still %d at the receiver", where(), rx.CC[p.neg])
+			case side < 0 && rx.CC[p.pos] != 0:
+				return true, violation("C07", "stale-side", "", "%s: the stick moved to the negative side, nothing was transmitted and the positive controller is still %d at the receiver", where(), rx.CC[p.pos])
+			case side == 0 && (rx.CC[p.pos] != 0 || rx.CC[p.neg] != 0):
+				return true, violation("C07", "stale-side", "", "%s: the stick returned to rest, nothing was transmitted and the controllers are still %d / %d", where(), rx.CC[p.pos], rx.CC[p.neg])
 			}
 		}
 		if len(ws.Res.Out) > 0 && side != 2 {
